@@ -65,7 +65,8 @@ func buildBlockStatements(closureContext *parser.ClosureContext) []core_domain.C
 	var results []core_domain.CodeDependency
 	statementsContext := closureContext.BlockStatementsOpt().(*parser.BlockStatementsOptContext).BlockStatements().(*parser.BlockStatementsContext)
 	for _, blockStatement := range statementsContext.AllBlockStatement() {
-		var result *core_domain.CodeDependency = nil
+		// one statement may name several dependencies: implementation 'a:b:1', 'c:d:2'
+		var found []*core_domain.CodeDependency
 
 		commandExprCtx := blockStatement.GetChild(0).GetChild(0).GetChild(0).(*parser.CommandExpressionContext)
 		pathExpression := commandExprCtx.GetChild(0).(*parser.PostfixExprAltForExprContext).GetChild(0).(*parser.PostfixExpressionContext).PathExpression()
@@ -77,27 +78,29 @@ func buildBlockStatements(closureContext *parser.ClosureContext) []core_domain.C
 			argumentsContext := pathExpression.GetChild(1).(*parser.PathElementContext).GetChild(0).(*parser.ArgumentsContext)
 			argListCtx := argumentsContext.GetChild(1).(*parser.EnhancedArgumentListContext)
 			for _, argElement := range argListCtx.AllEnhancedArgumentListElement() {
-				result = ConvertToJDep(argElement.GetText())
+				found = append(found, ConvertToJDep(argElement.GetText()))
 			}
 		}
 
 		// normal: developmentOnly 'org.springframework.boot:spring-boot-devtools'
 		if commandExprCtx.GetChildCount() >= 2 {
 			argumentListContext := commandExprCtx.GetChild(1).(*parser.ArgumentListContext)
-			result = BuildDependency(argumentListContext)
+			found = BuildDependency(argumentListContext)
 		}
 
-		if result != nil {
-			result.Scope = scope
-			results = append(results, *result)
+		for _, result := range found {
+			if result != nil {
+				result.Scope = scope
+				results = append(results, *result)
+			}
 		}
 	}
 
 	return results
 }
 
-func BuildDependency(argumentListContext *parser.ArgumentListContext) *core_domain.CodeDependency {
-	var result *core_domain.CodeDependency = nil
+func BuildDependency(argumentListContext *parser.ArgumentListContext) []*core_domain.CodeDependency {
+	var result []*core_domain.CodeDependency
 	for _, arg := range argumentListContext.AllArgumentListElement() {
 		if reflect.TypeOf(arg.(*parser.ArgumentListElementContext).GetChild(0)).String() == "*parser.ExpressionListElementContext" {
 			listElementContext := arg.(*parser.ArgumentListElementContext).GetChild(0).(*parser.ExpressionListElementContext)
@@ -108,7 +111,7 @@ func BuildDependency(argumentListContext *parser.ArgumentListContext) *core_doma
 				GetChild(0).(*parser.LiteralPrmrAltContext)
 
 			resultStr := literalPrmrAltContext.Literal().GetChild(0).(*parser.StringLiteralContext).StringLiteral().GetText()
-			result = ConvertToJDep(resultStr)
+			result = append(result, ConvertToJDep(resultStr))
 		}
 	}
 	return result
